@@ -44,6 +44,8 @@ var recTypeName = []string{"INVALID", "INSERT", "MARKDELETE", "APPLYDELETE", "RO
 // ioHook turns recorded I/O calls into trace events.  A log write lists its records as
 // [lsn, txn, type, size, prevLSN, new page id (NewTablePage records, else -1)]; a page write carries the page LSN
 // and, for pages known to be heap pages (a NewTablePage record named them), the next-page link of the image.
+var ioLite bool
+
 func ioHook(tw *trace.Writer, heap map[int]bool) func(idx int, op *iorec.Op) {
 	return func(idx int, op *iorec.Op) {
 		switch op.Kind {
@@ -57,6 +59,9 @@ func ioHook(tw *trace.Writer, heap map[int]bool) func(idx int, op *iorec.Op) {
 					np = r.B
 				}
 				rj = append(rj, []int{r.Lsn, r.Txn, r.Typ, r.Size, r.Prev, np})
+			}
+			if ioLite { // storm workloads: half a megabyte of records per write; only completeness is judged
+				rj = [][]int{}
 			}
 			tw.Emit(map[string]interface{}{"ev": "WLog", "io": idx, "recs": rj, "parsed": ok, "bytes": len(op.Data)})
 		case "P":
